@@ -334,7 +334,7 @@ def run(rep):
     rep.floor("R-C01-siblings", 4)
     rep.floor("R-C01-cutoff-lower", 2)
     rep.floor("R-C01-ola", 8)
-    rep.floor("R-C15-lanes", 55)
+    rep.floor("R-C15-lanes", 61)
     rep.floor("R-C05-shift", 6)
     rep.floor("R-C05-rebase", 4)
     rep.floor("R-C05-preroll", 14)
